@@ -22,8 +22,8 @@ type c13Shape struct {
 	name  string
 	build func(id uint64, method, payload string) *env.Rpc
 	// what it may legitimately cause for the call it is addressed to
-	data    bool // carries `payload` as a message
-	okEnd   bool // may end a stream cleanly / complete a unary call successfully (if it carries data)
+	data  bool // carries `payload` as a message
+	okEnd bool // may end a stream cleanly / complete a unary call successfully (if it carries data)
 }
 
 func c13Body(payload string) *goatorepo.Body { return env.RespBody(0, "", payload).Body }
@@ -122,7 +122,7 @@ type c13Stats struct{ n int }
 func (s *c13Stats) TagRPC(ctx context.Context, _ *stats.RPCTagInfo) context.Context   { return ctx }
 func (s *c13Stats) HandleRPC(ctx context.Context, st stats.RPCStats)                  { s.n++ }
 func (s *c13Stats) TagConn(ctx context.Context, _ *stats.ConnTagInfo) context.Context { return ctx }
-func (s *c13Stats) HandleConn(context.Context, stats.ConnStats)                      {}
+func (s *c13Stats) HandleConn(context.Context, stats.ConnStats)                       {}
 
 func c13(tier string) []*explore.Scenario {
 	var out []*explore.Scenario
@@ -173,6 +173,7 @@ func c13(tier string) []*explore.Scenario {
 		out = append(out, c13Product("unary", 2, false), c13Product("stream-in-progress", 2, true))
 	}
 	out = append(out, c01FailedWriteOlder("C13", 1))
+	out = append(out, c13DegenerateMetadata(false), c13DegenerateMetadata(true))
 	out = append(out, failedCallAbandoned("C13", "recv-into-non-message", 1), failedCallAbandoned("C13", "send-unencodable", 1), failedCallAbandoned("C13", "send-non-message", 1))
 	// back-to-back deliveries
 	for _, mix := range []string{"uu", "us"} {
@@ -528,6 +529,82 @@ func c13Product(where string, n int, withStats bool) *explore.Scenario {
 					vsched.Fail(fam+"|no-terminal", "%s after%s: no terminal result", where, seq)
 				}
 			}
+		},
+	}
+}
+
+// c13DegenerateMetadata: reply envelopes whose header / trailer metadata carries degenerate
+// entries - a -bin key with an empty value, unpadded or standard-alphabet base64, an upper-case
+// -BIN suffix, an empty key, an empty value, duplicates, invalid UTF-8 - addressed to a unary call
+// (with and without a stats handler) and to a stream: no crash, every call terminates, and the
+// caller can still ask for Header() and Trailer().
+func c13DegenerateMetadata(withStats bool) *explore.Scenario {
+	fam := "C13/hostile"
+	kvs := [][2]string{{"x-bin", ""}, {"x-bin", "YQ"}, {"x-bin", "+/8="}, {"X-BIN", "AA=="}, {"x-Bin", ""}, {"", ""}, {"", "v"}, {"k", ""},
+		{"-bin", ""}, {"-bin", "AA=="}, {"k", "\xff\xfe"}, {"\xff", "v"}, {"grpc-status", ""}, {"grpc-timeout", ""}, {"a-bin", "===="}, {"a-bin", "="}}
+	return &explore.Scenario{
+		Name: fmt.Sprintf("C13/degenerate-metadata/stats=%v", withStats), Family: fam, Prop: "C13", Bound: 0,
+		Run: func() {
+			n := 0
+			for _, kv := range kvs {
+				for _, where := range []string{"unary-header", "unary-trailer", "stream-header", "stream-trailer", "stream-header-dup"} {
+					n++
+					w := env.NewWorld()
+					var dial []goat.DialOption
+					if withStats {
+						dial = append(dial, goat.WithStatsHandler(&c13Stats{}))
+					}
+					d := env.NewDirect(w, env.DirectOpts{Pipe: env.PipeOpts{Cap: 64}, NoServer: true, DialOpts: dial})
+					vsched.Settle()
+					entry := []*goatorepo.KeyValue{{Key: kv[0], Value: kv[1]}}
+					if where == "stream-header-dup" {
+						entry = append(entry, &goatorepo.KeyValue{Key: kv[0], Value: kv[1]}, &goatorepo.KeyValue{Key: "ok", Value: "v"})
+					}
+					tag := fmt.Sprintf("c%d", n)
+					done := false
+					if strings.HasPrefix(where, "unary") {
+						r := w.Rec(tag, "Unary")
+						vsched.GoNamed("caller", func() { w.CallUnary(d.CC, context.Background(), r, "x"); done = true })
+						vsched.Settle()
+						reply := env.RespTrailer(1, env.MUnary, 0, "OK")
+						reply.Body = c13Body("p")
+						if where == "unary-header" {
+							reply.Header.Headers = entry
+						} else {
+							reply.Trailer.Metadata = entry
+						}
+						d.Pipe.B.Inject(reply)
+					} else {
+						r := w.Rec(tag, "Bidi")
+						vsched.GoNamed("caller", func() {
+							if cs := w.Open(d.CC, context.Background(), r); cs != nil {
+								cs.Header()
+								env.CRecvAll(r, cs)
+								cs.Trailer()
+							}
+							done = true
+						})
+						vsched.Settle()
+						h := env.RespBody(1, env.MBidi, "p")
+						t := env.RespTrailer(1, env.MBidi, 0, "OK")
+						if where == "stream-trailer" {
+							t.Trailer.Metadata = entry
+						} else {
+							h.Header.Headers = entry
+						}
+						d.Pipe.B.Inject(h)
+						d.Pipe.B.Inject(t)
+					}
+					vsched.Settle()
+					d.Pipe.A.Break()
+					d.Pipe.B.Break()
+					vsched.Settle()
+					if !done {
+						vsched.Fail(fam+"|call-hang", "a reply with metadata entry %q=%q (%s): the call never terminated", kv[0], kv[1], where)
+					}
+				}
+			}
+			vsched.Count("inputs", int64(n))
 		},
 	}
 }
